@@ -155,7 +155,12 @@ func runC03(ctx *Ctx) {
 		},
 		weights: []W{{"para", 40}, {"shortpara", 20}, {"heading", 4}, {"list", 10}, {"quote", 8}, {"datatable", 5}, {"layouttable", 5}, {"links", 6}, {"figure", 2}, {"img", 2}, {"divwrap", 8}, {"unlikely", 3}, {"form", 2}, {"hidden", 2}},
 		extra: func(ctx *Ctx, i int, r *Rng) []string {
-			return []string{newPageGen(newRng(ctx.Seed, fmt.Sprintf("C03/fs/%d", i))).FilterStressPage()}
+			out := []string{newPageGen(newRng(ctx.Seed, fmt.Sprintf("C03/fs/%d", i))).FilterStressPage()}
+			if i%40 == 7 {
+				out = append(out, deepNestPage(newPageGen(newRng(ctx.Seed, fmt.Sprintf("C03/deep/%d", i)))))
+				ctx.Rep.hist("deep-nest-pages")
+			}
+			return out
 		},
 		oracle: func(ctx *Ctx, x *distilled, replay interface{}) bool {
 			n, k, d := oracleC03(ctx.Rep, x, replay)
@@ -164,6 +169,26 @@ func runC03(ctx *Ctx) {
 			ctx.Rep.histN("simple-dropped", d)
 			return k > 0 && d > 0
 		}}.run(ctx)
+}
+
+// deepNestPage: a simple paragraph whose inline elements nest a few hundred to a few thousand
+// levels deep (the parser builds such trees as they are written), with words at the shallow and
+// at the deepest levels, between ordinary paragraphs.
+func deepNestPage(g *PageGen) string {
+	depth := []int{40, 300, 505, 520, 700, 1100}[g.R.Intn(6)]
+	tags := []string{"b", "i", "em", "strong", "span", "u", "code"}
+	var open strings.Builder
+	close := ""
+	for k := 0; k < depth; k++ {
+		t := tags[g.R.Intn(len(tags))]
+		open.WriteString("<" + t + ">")
+		if k%97 == 0 {
+			open.WriteString(g.word() + " ")
+		}
+		close = "</" + t + ">" + close
+	}
+	deep := "<p>" + g.words(25) + " " + open.String() + g.words(25) + close + " " + g.words(25) + "</p>"
+	return "<html><head><title>t</title></head><body><p>" + g.words(40) + "</p>" + deep + "<p>" + g.words(40) + "</p><div><p>" + g.words(3) + "</p></div></body></html>"
 }
 
 func hiddenCarriers(g *PageGen) []string {
